@@ -480,6 +480,20 @@ func c04Annotations(c *Ctx, r *R) {
 			if !strings.HasSuffix(t, "[]*"+eng.Module+"/pkg/rsl.AnnotationEntry") {
 				continue
 			}
+			fromMap := false
+			for _, root := range eng.Roots(k.Instr.Common().Args[0]) {
+				if _, ok := root.(*ssa.Lookup); ok {
+					fromMap = true
+				}
+				if ex, ok := root.(*ssa.Extract); ok {
+					if _, ok := ex.Tuple.(*ssa.Lookup); ok {
+						fromMap = true
+					}
+				}
+			}
+			if fromMap {
+				continue // building the result map, not the walk accumulator
+			}
 			n++
 			// innermost loop header dominating this block
 			var head *ssa.BasicBlock
